@@ -276,7 +276,20 @@ HOSTS = [
     ("jump-guard", 2, lambda c: ([], Call(Fn([], [Jump("return", c[1], Inf("||", c[0], Bool(True))), Int(0)])))),
     ("nested", 4, lambda c: ([Asg("f", _f3())], Inf("+", c[0], PCall(Call(Id("f"), [Arr(c[1], c[2]), c[3]]), "len")))),
 ]
-RAISERS = [("Err", lambda: Raise("Err", "boom")), ("div0", lambda: Inf("/", Int(1), Int(0))), ("name", lambda: Id("undefinedname")),
+def _sel(c):
+    return [If(Inf("==", Id("x"), Int(1)), c[0], If(Inf("==", Id("x"), Int(2)), c[1], c[2]))]
+
+
+HOSTS += [
+    ("chain-list-lit", 3, lambda c: ([], LCall(Arr(Int(1), Int(2), Int(3)), Fn(["x"], _sel(c)), main="@"))),
+    ("chain-strict-lit", 3, lambda c: ([], LCall(Arr(Int(1), Int(2), Int(3)), Fn(["x"], _sel(c)), main="@", add="="))),
+    ("chain-lonely-var", 3, lambda c: ([Asg("g", Fn(["x"], _sel(c)))], VCall(Arr(Int(1), Int(2), Int(3)), "g", main="@", add="&"))),
+    ("chain-reduce-lit", 3, lambda c: ([], LCall(Arr(Int(1), Int(2), Int(3)), Fn(["acc", "x"], [Arr(Id("acc"), _sel(c)[0])]), main="$", carg=Int(0)))),
+    ("chain-list-prop", 3, lambda c: ([Asg("o", Obj(("um", Fn(["x"], _sel(c), method=True))))],
+                                      LCall(Arr(Int(1), Int(2), Int(3)), Fn(["x"], [PCall(Id("o"), "um", [Id("x")])]), main="@"))),
+    ("chain-arg", 2, lambda c: ([], LCall(Arr(c[0]), Fn(["x"], [Id("x")]), main="@", carg=Arr(c[1])))),
+]
+RAISERS = [("Err", lambda: Raise("Err", "boom")), ("StopIterErr", lambda: Raise("StopIterErr", "mine")), ("div0", lambda: Inf("/", Int(1), Int(0))), ("name", lambda: Id("undefinedname")),
            ("noprop", lambda: PCall(Int(1), "nosuchprop"))]
 WRAPS = ["top", "func", "method", "literal", "func-defer"]
 HANDLERS = ["none", "try", "thoughtful"]
@@ -315,6 +328,8 @@ def c07_family(thorough):
                 kids[j] = mk()
                 pre, expr = build(kids)
                 combos = [(w, h) for w in WRAPS for h in HANDLERS] if thorough or rk == "Err" else [("top", "none"), ("func", "try")]
+                if rk == "StopIterErr" and not name.startswith("chain") and not thorough:
+                    continue
                 for w, h in combos:
                     progs.append((f"{name}:{j}:{rk}:{w}:{h}", wrap(pre, expr, w, h)))
     return progs
@@ -327,4 +342,95 @@ def c08_family():
         pre, expr = build(kids)
         for w in ("top", "func", "literal"):
             progs.append((f"{name}:{w}", wrap(pre, expr, w, "none")))
+    return progs
+
+
+# ===================================================================== C04 chains
+C04_PRELUDE = [
+    # element objects: mode 0 value, 1 nil, 2 raise
+    Asg("mk", Fn(["v", "mode"], [Obj(("v", Id("v")), ("mode", Id("mode")),
+                                     ("um", Fn([], [Say(PCall(Id("self"), "v")),
+                                                    If(Inf("==", PCall(Id("self"), "mode"), Int(2)), Raise("Err", "boom"),
+                                                       If(Inf("==", PCall(Id("self"), "mode"), Int(1)), Nil(), Inf("*", PCall(Id("self"), "v"), Int(10))))], method=True)),
+                                     ("uma", Fn(["a"], [Say(Arr(PCall(Id("self"), "v"), Id("a"))),
+                                                        If(Inf("==", PCall(Id("self"), "mode"), Int(2)), Raise("Err", "boom"),
+                                                           If(Inf("==", PCall(Id("self"), "mode"), Int(1)), Nil(), Inf("+", PCall(Id("self"), "v"), Id("a"))))], method=True)))])),
+    # accumulator objects for reduce: x = 0 -> nil, x < 0 -> raise, else a new accumulator
+    Asg("acc0", Obj(("t", Int(0)), ("ustep", Fn(["x"], [Say(Arr(PCall(Id("self"), "t"), Id("x"))),
+                                                        If(Inf("<", Id("x"), Int(0)), Raise("Err", "neg"),
+                                                           If(Inf("==", Id("x"), Int(0)), Nil(),
+                                                              Obj(("t", Inf("+", PCall(Id("self"), "t"), Id("x"))), ("ustep", Idx(Id("self"), Str("ustep"))))))], method=True)))),
+]
+ELEM = {"v": lambda k: Call(Id("mk"), [Int(k), Int(0)]), "n": lambda k: Call(Id("mk"), [Int(k), Int(1)]),
+        "r": lambda k: Call(Id("mk"), [Int(k), Int(2)]), "0": lambda k: Nil()}
+
+
+def c04_family(thorough):
+    progs = []
+    maxlen = 3 if thorough else 2
+    pats = [""] + ["".join(p) for n in range(1, maxlen + 1) for p in itertools.product("vnr0", repeat=n)]
+    adds = {".": ["", "&", "~"], "@": ["", "&", "~", "="], "$": ["", "&", "~"]}
+    # list + scalar chains over element objects, method without / with an extra argument
+    for extra in (False, True):
+        meth = "uma" if extra else "um"
+        args = [Int(100)] if extra else []
+        lit = Fn(["x"], [PCall(Id("x"), meth, args)])
+        for pat in pats:
+            recv = Arr(*[ELEM[c](i + 1) for i, c in enumerate(pat)])
+            for add in adds["@"]:
+                for carg, ctag in ((None, "-"), (Arr(), "[]"), (Arr(Int(9)), "[9]")):
+                    if ctag != "-" and (extra or len(pat) > 2):
+                        continue
+                    key = f"list:{add}@:{pat}:{ctag}:{meth}"
+                    progs.append((key + ":prop", C04_PRELUDE + [Say(PCall(recv, meth, args, main="@", add=add, carg=carg)), Say(Str("after"))]))
+                    progs.append((key + ":lit", C04_PRELUDE + [Say(LCall(recv, lit, main="@", add=add, carg=carg)), Say(Str("after"))]))
+                    progs.append((key + ":var", C04_PRELUDE + [Asg("g", lit), Say(VCall(recv, "g", main="@", add=add, carg=carg)), Say(Str("after"))]))
+        for c in "vnr0":
+            recv = ELEM[c](1)
+            for add in adds["."]:
+                key = f"scalar:{add}.:{c}:-:{meth}"
+                progs.append((key + ":prop", C04_PRELUDE + [Say(PCall(recv, meth, args, add=add)), Say(Str("after"))]))
+                progs.append((key + ":lit", C04_PRELUDE + [Say(LCall(recv, lit, add=add)), Say(Str("after"))]))
+                progs.append((key + ":var", C04_PRELUDE + [Asg("g", lit), Say(VCall(recv, "g", add=add)), Say(Str("after"))]))
+    # reduce chains over ints with accumulator objects
+    ipats = [()] + [p for n in range(1, maxlen + 2) for p in itertools.product((1, 2, 0, -1), repeat=n)]
+    rlit = Fn(["acc", "x"], [PCall(Id("acc"), "ustep", [Id("x")])])
+    for pat in ipats:
+        recv = Arr(*[Int(x) for x in pat])
+        for add in adds["$"]:
+            for carg, ctag in ((Id("acc0"), "acc0"), (None, "-")):
+                if ctag == "-" and len(pat) > 2:
+                    continue
+                key = f"reduce:{add}$:{','.join(map(str, pat))}:{ctag}:ustep"
+                progs.append((key + ":prop", C04_PRELUDE + [Say(PCall(recv, "ustep", [], main="$", add=add, carg=carg)), Say(Str("after"))]))
+                progs.append((key + ":lit", C04_PRELUDE + [Say(LCall(recv, rlit, main="$", add=add, carg=carg)), Say(Str("after"))]))
+                progs.append((key + ":var", C04_PRELUDE + [Asg("g", rlit), Say(VCall(recv, "g", main="$", add=add, carg=carg)), Say(Str("after"))]))
+    # other receivers: int, range, obj; operator props with an argument
+    plus = Fn(["x"], [PCall(Id("x"), "+", [Int(1)])])
+    for rtag, recv in (("int3", Int(3)), ("int0", Int(0)), ("range", Range(Int(2), Int(5), Nil())), ("range-step", Range(Int(7), Int(1), Int(-2))),
+                       ("arr", Arr(Int(4), Int(5)))):
+        for add in adds["@"]:
+            key = f"list:{add}@:{rtag}:-:+"
+            progs.append((key + ":prop", [Say(PCall(recv, "+", [Int(1)], main="@", add=add))]))
+            progs.append((key + ":lit", [Say(LCall(recv, plus, main="@", add=add))]))
+            progs.append((key + ":var", [Asg("g", plus), Say(VCall(recv, "g", main="@", add=add))]))
+        rplus = Fn(["acc", "x"], [PCall(Id("acc"), "+", [Id("x")])])
+        for add in adds["$"]:
+            for carg, ctag in ((Int(100), "100"), (None, "-")):
+                key = f"reduce:{add}$:{rtag}:{ctag}:+"
+                progs.append((key + ":prop", [Say(PCall(recv, "+", [], main="$", add=add, carg=carg))]))
+                progs.append((key + ":lit", [Say(LCall(recv, rplus, main="$", add=add, carg=carg))]))
+                progs.append((key + ":var", [Asg("g", rplus), Say(VCall(recv, "g", main="$", add=add, carg=carg))]))
+    o = Obj(("b", Int(1)), ("a", Int(2)))
+    progs.append(("list:@:obj:-:len:prop", [Say(PCall(o, "len", [], main="@"))]))
+    progs.append(("list:@:obj:-:len:lit", [Say(LCall(o, Fn(["x"], [PCall(Id("x"), "len")]), main="@"))]))
+    progs.append(("list:@:obj:{}:pairs:lit", [Say(LCall(o, Fn(["k", "v"], [Arr(Id("k"), Inf("*", Id("v"), Int(2)))]), main="@", carg=Obj()))]))
+    # the callee raises StopIterErr itself: it is an error, not the end of the receiver
+    stop = Fn(["x"], [If(Inf("==", Id("x"), Int(2)), Raise("StopIterErr", "mine"), Id("x"))])
+    for add in adds["@"]:
+        progs.append((f"list:{add}@:stopiter:-:raise:lit", [Say(LCall(Arr(Int(1), Int(2), Int(3)), stop, main="@", add=add)), Say(Str("after"))]))
+        progs.append((f"list:{add}@:stopiter:-:raise:var", [Asg("g", stop), Say(VCall(Arr(Int(1), Int(2), Int(3)), "g", main="@", add=add)), Say(Str("after"))]))
+    for add in adds["$"]:
+        rs = Fn(["acc", "x"], [If(Inf("==", Id("x"), Int(2)), Raise("StopIterErr", "mine"), Inf("+", Id("acc"), Id("x")))])
+        progs.append((f"reduce:{add}$:stopiter:0:raise:lit", [Say(LCall(Arr(Int(1), Int(2), Int(3)), rs, main="$", add=add, carg=Int(0))), Say(Str("after"))]))
     return progs
